@@ -25,26 +25,54 @@ def mk_state(kind, pm, lm):
     return s
 
 
+# op -> list of (route name, statement(s), primary?)  --  `primary` routes must compile in MustCompile cells; every
+# route must be rejected in MustNotCompile cells (a forbidden access may not be reachable through ANY trait or method)
+NEED = "fn need<T: ?Sized + %s>(_: &mut T) {} need(&mut r);"
 OPS = {
-    "read_view": "let v: &[u8] = r.as_slice(); std::hint::black_box(v.len());",
-    "mut_view": "r.as_mut_slice()[0] = 1;",
-    "array_view": "let a: &[u8; 16] = r.as_array(); std::hint::black_box(a[0]);",
-    "index": "let b: u8 = r[0]; std::hint::black_box(b);",
-    "resize": "r.resize(32, 0);",
-    "clone": "let c = r.clone();",
-    "lock": "let r2 = r.mlock().unwrap();",
-    "unlock": "let r2 = r.munlock().unwrap();",
-    "read_only": "let r2 = r.mprotect_readonly().unwrap();",
-    "read_write": "let r2 = r.mprotect_readwrite().unwrap();",
-    "no_access": "let r2 = r.mprotect_noaccess().unwrap();",
-    "use_after_transition": "let r2 = r.munlock().unwrap(); drop(r);",
+    "read_view": [("as_slice", "let v: &[u8] = r.as_slice(); std::hint::black_box(v.len());", True),
+                  ("deref", "let v: &[u8] = &r; std::hint::black_box(v.len());", True),
+                  ("len", "std::hint::black_box(r.len());", True),
+                  ("slice_index", "let v: &[u8] = &r[..]; std::hint::black_box(v.len());", True),
+                  ("trait Deref", NEED % "std::ops::Deref<Target = [u8]>", False),
+                  ("trait AsRef", NEED % "AsRef<[u8]>", False),
+                  ("trait Bytes", NEED % "Bytes", False),
+                  ("trait Borrow", NEED % "std::borrow::Borrow<[u8]>", False),
+                  ("to_vec", "let v: Vec<u8> = r.to_vec(); std::hint::black_box(v.len());", False),
+                  ("iter", "for b in r.iter() { std::hint::black_box(b); }", False)],
+    "mut_view": [("as_mut_slice", "r.as_mut_slice()[0] = 1;", True),
+                 ("index_assign", "r[0] = 1;", True),
+                 ("deref_mut", "let v: &mut [u8] = &mut r; v[0] = 1;", True),
+                 ("copy_from_slice", "MutBytes::copy_from_slice(&mut r, b\"0123456789abcdef\");", False),
+                 ("fill", "r.fill(0);", False),
+                 ("trait DerefMut", NEED % "std::ops::DerefMut<Target = [u8]>", False),
+                 ("trait AsMut", NEED % "AsMut<[u8]>", False),
+                 ("trait MutBytes", NEED % "MutBytes", False),
+                 ("trait BorrowMut", NEED % "std::borrow::BorrowMut<[u8]>", False),
+                 ("trait MutByteArray", NEED % "MutByteArray<16>", False),
+                 ("trait AsMut array", NEED % "AsMut<[u8; 16]>", False)],
+    "array_view": [("as_array", "let a: &[u8; 16] = r.as_array(); std::hint::black_box(a[0]);", True),
+                   ("trait ByteArray", NEED % "ByteArray<16>", False),
+                   ("trait AsRef array", NEED % "AsRef<[u8; 16]>", False)],
+    "index": [("index", "let b: u8 = r[0]; std::hint::black_box(b);", True)],
+    "resize": [("resize", "r.resize(32, 0);", True),
+               ("trait ResizableBytes", NEED % "ResizableBytes", False)],
+    "clone": [("clone", "let c = r.clone();", True)],
+    "lock": [("mlock", "let r2 = r.mlock().unwrap();", True)],
+    "unlock": [("munlock", "let r2 = r.munlock().unwrap();", True)],
+    "read_only": [("mprotect_readonly", "let r2 = r.mprotect_readonly().unwrap();", True)],
+    "read_write": [("mprotect_readwrite", "let r2 = r.mprotect_readwrite().unwrap();", True)],
+    "no_access": [("mprotect_noaccess", "let r2 = r.mprotect_noaccess().unwrap();", True),
+                  ],
+    "use_after_transition": [("after munlock", "let r2 = r.munlock().unwrap(); drop(r);", True),
+                             ("after mprotect_readonly", "let r2 = r.mprotect_readonly().unwrap(); drop(r);", True),
+                             ("after mprotect_readwrite", "let r2 = r.mprotect_readwrite().unwrap(); drop(r);", True)],
 }
 
 
-def prog(kind, pm, lm, op):
+def prog(kind, pm, lm, stmt):
     body = mk_state(kind, pm, lm)
     lines = [PRE, "fn main() {"] + ["    " + l for l in body]
-    lines.append("    " + OPS[op] + " // MARK")
+    lines.append("    " + stmt + " // MARK")
     lines.append("}")
     return "\n".join(lines) + "\n"
 
@@ -60,13 +88,17 @@ fn main() {
 """
 
 
-def stream_prog(op, mode):
+STREAM_ROUTES = {
+    "push": [("push", "let x: Vec<u8> = %s.push(&msg, None, Tag::MESSAGE).unwrap();", True),
+             ("push_to_vec", "let x: Vec<u8> = %s.push_to_vec(&msg, None, Tag::MESSAGE).unwrap();", True)],
+    "pull": [("pull", "let x: (Vec<u8>, Tag) = %s.pull(&c, None).unwrap();", True),
+             ("pull_to_vec", "let x: (Vec<u8>, Tag) = %s.pull_to_vec(&c, None).unwrap();", True)],
+}
+
+
+def stream_prog(stmt, mode):
     obj = "push" if mode == "Push" else "pull"
-    if op == "push":
-        stmt = "let x: Vec<u8> = %s.push(&msg, None, Tag::MESSAGE).unwrap();" % obj
-    else:
-        stmt = "let x: (Vec<u8>, Tag) = %s.pull(&c, None).unwrap();" % obj
-    return STREAM_PRE + "    " + stmt + " // MARK\n}\n"
+    return STREAM_PRE + "    " + (stmt % obj) + " // MARK\n}\n"
 
 
 def run(tier):
@@ -83,18 +115,29 @@ def run(tier):
     os.makedirs(os.path.join(wd, "src", "bin"))
     os.makedirs(os.path.join(wd, ".cargo"))
     open(os.path.join(wd, "Cargo.toml"), "w").write(
-        '[package]\nname = "c20gen"\nversion = "0.0.0"\nedition = "2021"\n[workspace]\n[dependencies]\ndryoc = { path = "/repo", features = ["nightly"] }\n')
+        '[package]\nname = "c20gen"\nversion = "0.0.0"\nedition = "2021"\n[workspace]\n[dependencies]\ndryoc = { path = "/repo", features = ["nightly"] }\nzeroize = "1.6"\n')
     open(os.path.join(wd, ".cargo", "config.toml"), "w").write("[net]\noffline = true\n")
     shutil.copy("/repo/Cargo.lock", os.path.join(wd, "Cargo.lock"))
     cells = {}
     for c in table["prot"]:
-        name = "p_%s_%s_%s_%s" % (c["kind"].lower(), c["pm"].lower(), c["lm"].lower(), c["op"])
-        cells[name] = c
-        open(os.path.join(wd, "src", "bin", name + ".rs"), "w").write(prog(c["kind"], c["pm"], c["lm"], c["op"]))
+        for ri, (rname, stmt, primary) in enumerate(OPS[c["op"]]):
+            if "16" in stmt and "0123456789abcdef" not in stmt and c["kind"] != "Fixed":
+                continue                      # array routes exist for the fixed-length container only
+            verdict = c["verdict"]
+            if not primary and verdict != "MustNotCompile":
+                # probe routes are judged only where the access is forbidden; in the plain read-write state they
+                # are compiled as liveness controls (a route that compiles nowhere proves nothing)
+                if not (c["pm"] == "RW" and c["lm"] == "Unlocked"):
+                    continue
+                verdict = "Free"
+            name = "p_%s_%s_%s_%s_%d" % (c["kind"].lower(), c["pm"].lower(), c["lm"].lower(), c["op"], ri)
+            cells[name] = dict(c, route=rname, verdict=verdict)
+            open(os.path.join(wd, "src", "bin", name + ".rs"), "w").write(prog(c["kind"], c["pm"], c["lm"], stmt))
     for c in table["stream"]:
-        name = "s_%s_on_%s" % (c["op"], c["mode"].lower())
-        cells[name] = c
-        open(os.path.join(wd, "src", "bin", name + ".rs"), "w").write(stream_prog(c["op"], c["mode"]))
+        for ri, (rname, stmt, primary) in enumerate(STREAM_ROUTES[c["op"]]):
+            name = "s_%s_on_%s_%d" % (c["op"], c["mode"].lower(), ri)
+            cells[name] = dict(c, route=rname)
+            open(os.path.join(wd, "src", "bin", name + ".rs"), "w").write(stream_prog(stmt, c["mode"]))
     tgt = os.path.join(HARNESS, "target", "c20")
     rc, out = sh(["cargo", "+nightly", "check", "--offline", "--bins", "--keep-going", "--message-format=json", "--target-dir", tgt],
                  cwd=wd, timeout=3000)
@@ -163,10 +206,13 @@ def run(tier):
     ck.cov["controls_run"] = ran
     ck.cov["distinct_nontrivial"] = nprog
     ck.cov["free_cells"] = free
+    live = set(cells[n]["route"] for n in cells if n in built and n not in errs)
+    dead = sorted(set(c["route"] for c in cells.values()) - live - set(r[0] for r in OPS["use_after_transition"]))
+    ck.cov["routes_never_compiling_anywhere"] = dead
     ck.cov["traces_validated_against_impl"] = nprog
     ck.cov["samples"] = samples
     ck.cov["exhaustive"] = True
-    ck.cov["rule"] = ("one program per cell of the table printed by TypeState.tla (12 operations x 2 containers x 3 protect modes x 2 lock modes + 4 stream cells); "
+    ck.cov["rule"] = ("one program per (cell, route) of the table printed by TypeState.tla (12 operations x 2 containers x 3 protect modes x 2 lock modes + 4 stream cells; every trait or method through which the access could be requested is a route: as_mut_slice, index assignment, DerefMut/AsMut/BorrowMut/MutBytes/MutByteArray bounds, push_to_vec/pull_to_vec, ...); "
                       "MustNotCompile cells must be rejected by rustc with the error in the generated line, MustCompile cells must compile and (where the state is reachable at run time) run without faulting; Free cells are recorded only")
     ck.assumptions += ["rustc (nightly toolchain installed in the sandbox) is the oracle for 'is rejected by the compiler'",
                        "the (NoAccess, Locked) type exists but cannot be reached at run time on Linux: compile-only"]
